@@ -432,7 +432,7 @@ func runOne(file string, update bool, style tsh.Style, setupCd, uniqueNames bool
 func main() {
 	tsh.Main("C16", "exploration", 10*time.Minute, func(r *vlib.Run) {
 		run = r
-		r.Rule("scripts with 2-6 golden entries (some nested names) plus a data entry; actual contents come from stdout, stderr or a file and are drawn from empty / newline-terminated / CRLF / invalid UTF-8 / '>'-prefixed / no-final-newline / marker-line contents; goldens match or not, some are compared twice (last actual wins), a ninth of the scripts compare both streams of one command, the first against a stale golden, interleaved with '! cmp', matching 'cmpenv' and comparisons against files created at run time; a third of the runs set Params.RequireUniqueNames; a quarter of the scripts start in $WORK/startdir because Params.Setup moved Env.Cd there (archive entries are then spelled ../name or $WORK/name); a quarter of the entries are named `$WORK/name` in the archive itself (expanded when unpacked; the name in the file must stay as written); a ninth of the scripts name one golden twice (the later entry is the effective one and must be updated); 10% dedicated scenarios in which the only mismatch must not be repaired (cmpenv, file outside the archive, '! cmp' of equal files), 10% with content that cannot be quoted. Non-trivial = distinct sequence of (update content / match / other) kinds with at least one update or a dedicated scenario.")
+		r.Rule("scripts with 2-6 golden entries (some nested names) plus a data entry; every fourth script text has CRLF line endings on some of its lines (they must survive the rewrite byte for byte); actual contents come from stdout, stderr or a file and are drawn from empty / newline-terminated / CRLF / invalid UTF-8 / '>'-prefixed / no-final-newline / marker-line contents; goldens match or not, some are compared twice (last actual wins), a ninth of the scripts compare both streams of one command, the first against a stale golden, interleaved with '! cmp', matching 'cmpenv' and comparisons against files created at run time; a third of the runs set Params.RequireUniqueNames; a quarter of the scripts start in $WORK/startdir because Params.Setup moved Env.Cd there (archive entries are then spelled ../name or $WORK/name); a quarter of the entries are named `$WORK/name` in the archive itself (expanded when unpacked; the name in the file must stay as written); a ninth of the scripts name one golden twice (the later entry is the effective one and must be updated); 10% dedicated scenarios in which the only mismatch must not be repaired (cmpenv, file outside the archive, '! cmp' of equal files), 10% with content that cannot be quoted. Non-trivial = distinct sequence of (update content / match / other) kinds with at least one update or a dedicated scenario.")
 		r.Assume("content that has marker lines and no final newline (or invalid UTF-8 with marker lines) cannot be represented by any implementation: for it only 'the script file is not corrupted' is asserted")
 		base := vlib.Scratch()
 		rng := r.Rand("scripts")
